@@ -2,7 +2,7 @@
   C09 — which message kinds each stateful rule of Model/Validate.lean can report (so that membership
   of a kind in `strictErrors` reduces to membership in the output of the one rule that owns it).
 -/
-import AGV.Model.Validate
+import AGV.Lemmas.ValidateStateless
 namespace AGV.Lemmas.ValidateRanges
 open AGV.Core AGV.Model.Validate
 
